@@ -6,12 +6,24 @@ props = [json.loads(l) for l in open(os.path.join(V, "properties.jsonl"))]
 ids = [p["id"] for p in props]
 
 # id -> (level, text, note, technique, design_ref)
+T_WF = "property-based testing: rapid generator of well-formed Wire programs + reference model oracle; real wire CLI, go build and instrumented execution; rapid shrinking to a replay spec"
+T_MUT = "property-based testing: rapid generator of well-formed programs + typed defect injectors; reference-model verdict vs wire exit status, diagnostics and output files; rapid shrinking"
+N_WF = "Trusted: go toolchain and runtime, the reference model harness/eng/model.go (documented semantics, ~600 lines, every generated program is also type-checked by Go), the trace instrumentation. Absence of violations is not established; evidence reports cases and classes explored."
 claimed = {
- "C07": ("exploration",
-         "Generated provider graphs (all labelled digraphs on 3 nodes, thorough also 4 nodes; rapid-drawn graphs of 4-40 nodes; path-explosion stress shapes) are rendered as Wire programs and run through the CLI built from /repo; a reference DFS decides cyclicity and is compared with exit status, the cycle diagnostic and the output file; termination is a calibrated time bound per invocation.",
-         "Trusted: go toolchain, the renderer (checked by Go's own type checker on every case), the 12-line reference cycle test. Termination on all inputs cannot be shown by testing; the bound is max(60 s, 20x calibration).",
-         "property-based testing: exhaustive small-graph enumeration + rapid graph generator with shrinking, reference-model oracle",
-         "DESIGN.md §4 C07"),
+ "C01": ("exploration", "Generated well-formed multi-package programs over ~30 type shapes and all documented Wire forms go through `wire gen`; every accepted package is parsed (one implementation per injector) and compiled without the wireinject tag next to typed function-variable assignments that force signature identity.", N_WF, T_WF, "DESIGN.md §4 C01"),
+ "C02": ("exploration", "Accepted generated programs are executed with instrumented providers; the designated source of every provider parameter, struct field, selected field and result (from the reference model) is evaluated over the observed value trees (with pointer identity classes); providers run exactly the needed set once.", N_WF, T_WF, "DESIGN.md §4 C02"),
+ "C03": ("fault_enumeration", "For every injector of every generated program every error-capable provider is failed in turn (enumerated), then a drawn sequence alternates failures and successes; per faulted call the unwinding contract (no further call, reverse cleanups once each, own cleanup never, zero result, nil cleanup, identical error) is checked on the runtime trace.", N_WF, "property-based testing with fault enumeration: rapid program generator x every single-provider failure point + drawn call sequences; trace oracle", "DESIGN.md §4 C03"),
+ "C04": ("exploration", "Fault-free executions of generated injectors that declare a cleanup: non-nil function also with zero cleanup providers, nothing cleaned before the caller's call, then exact reverse of the observed acquisition order, and dependency-before-dependent independently.", N_WF, T_WF, "DESIGN.md §4 C04"),
+ "C05": ("exploration", "A well-formed base plus one injected second source (8 duplicate kinds x 9 victim kinds x identity flavours x placements x Build/NewSet incl. unused parts); the reference model decides conflict; wire must fail with `multiple bindings for <T>` and write nothing, negative controls must keep their model verdict.", N_WF, T_MUT, "DESIGN.md §4 C05"),
+ "C06": ("exploration", "A well-formed base with one needed source removed or replaced by a near miss; wire must fail naming a missing type of the model's set and write nothing; alias controls must be accepted.", N_WF, T_MUT, "DESIGN.md §4 C06"),
+ "C07": ("exploration", "Generated provider graphs (all labelled digraphs on 3 nodes, a sample (thorough: all 65536) on 4 nodes, rapid-drawn graphs of 4-40 nodes incl. bindings bound into cycles and cycles that exist only in the union of imported sets, path-explosion stress shapes) rendered as Wire programs and run through the CLI; a reference DFS decides cyclicity; termination is a calibrated time bound per invocation.", "Trusted: go toolchain, the renderer (checked by Go's type checker on every case), the reference cycle test. Termination on all inputs cannot be shown by testing; the bound is max(60 s, 20x calibration).", "property-based testing: exhaustive small-graph enumeration + rapid graph generator with shrinking, reference-model oracle, calibrated time bound", "DESIGN.md §4 C07"),
+ "C08": ("exploration", "A well-formed base whose wire.Build gets one superfluous direct argument of each kind (incl. a second inline set and an item another injector uses); `unused ...` and nothing generated; the nested-use control stays accepted.", N_WF, T_MUT, "DESIGN.md §4 C08"),
+ "C09": ("exploration", "Result-list shapes of length 0-4 over 10 atoms for providers and injectors, duplicated parameter/field types (incl. separately written composite types, aliases, variadic), and the injector needs matrix; verdict per the rule table in the reference model; accepted shapes are compiled and executed.", N_WF, T_MUT, "DESIGN.md §4 C09"),
+ "C10": ("exploration", "Well-formed bases put through drawn meaning-preserving transformations (permutations of every argument list, wrap/flatten/inline regrouping, moving and aliasing sets, multi-name var specs); every variant must be accepted and its executed wiring must equal the order-independent reference model.", N_WF, "property-based testing: metamorphic transformations of generated programs, reference-model and runtime-trace oracle", "DESIGN.md §4 C10"),
+ "C11": ("exploration", "Bases containing bindings with one binding edited (method dropped, pointer receivers, self binding, isolated from its concrete type, concrete unprovided, *T vs T, unbound, bound to a non-implementing interface); accept iff Go's method-set rule and co-location hold per the model; accepted programs are executed and consumers of I and C must share the instance.", N_WF, T_MUT, "DESIGN.md §4 C11"),
+ "C12": ("exploration", "Dedicated struct/field generator (name subsets, \"*\", case twins, embedded, prevent-tag spellings, wrong/unknown/duplicate names, other package) for wire.Struct and wire.FieldsOf over value and pointer parents from four source kinds; accepted programs are executed: exactly the named fields set, others zero, selected fields equal the parent's, pointer-to-field has the address of the field inside the provided struct.", N_WF, T_MUT, "DESIGN.md §4 C12"),
+ "C13": ("exploration", "Type-directed expression generator over two home packages with identical names and two same-named imported packages; specials (calls, receives, inaccessible identifiers, interface-typed values, non-implementing values) must be rejected; accepted values must equal the home-package evaluation and be identical across calls and injectors.", N_WF + " Known finding D20 (InterfaceValue accepts calls, pinned by a golden test) is excluded by construction and replayed.", "property-based testing: grammar/type-directed expression generator, differential oracle against home-package evaluation, identity across calls", "DESIGN.md §4 C13"),
+ "C14": ("exploration", "Generated programs under an adversarial naming layer (packages, aliases, types, functions, sets, injectors, parameters, package-level err/cleanup/_wire*Value/local-like names); the renamed program must be accepted, compile and satisfy the name-independent wiring, failure and cleanup oracles, i.e. behave as its canonical twin.", N_WF, "property-based testing: metamorphic renaming of generated programs; compile + runtime-trace oracles through a name-independent reference model", "DESIGN.md §4 C14"),
 }
 reasons = {}
 checks = []
